@@ -1,6 +1,7 @@
 // Op execution against the real library, reference model of crystal collections, per-op monitors.
 #include "ops.h"
 #include <algorithm>
+#include <errno.h>
 #include <fenv.h>
 #include <signal.h>
 #include <stdio_ext.h>
@@ -92,7 +93,10 @@ __attribute__((noinline, no_sanitize("address"))) static void scrub_op_stack() {
   memset(pad, g_fill_byte ? g_fill_byte : 0xa5, sizeof pad);
   __asm__ volatile("" : : "r"(pad) : "memory");
 }
-#define L(...) (scrub_op_stack(), (__VA_ARGS__))
+// ... and with the errno value the plan gives the caller at that moment (plan field `errno_mode`): a fresh process has
+// errno 0, a real caller has whatever its last failed system call left there; no result may depend on it.
+static thread_local int t_errno_preset = 0;
+#define L(...) (scrub_op_stack(), errno = t_errno_preset, (__VA_ARGS__))
 
 // ------------------------------------------------------------------ harness-owned crystal structs
 // Caller-built crystals live in ONE fixed slot per task: every crystal a task passes in has the same address as
@@ -546,6 +550,10 @@ void Exec::run_op(const Op& op) {
   Crystal_Array* touched = nullptr;
   ArrayModel* touched_model = nullptr;
   bool touched_modified = false;
+  {
+    static const int kErrnos[] = {0, ERANGE, ENOMEM, EINTR, EDOM, EINVAL, ENOENT, EAGAIN, EILSEQ, ERANGE};
+    t_errno_preset = hooks.errno_mode ? kErrnos[((unsigned)op.id * 2654435761u >> 7) % (sizeof kErrnos / sizeof kErrnos[0])] : 0;
+  }
   ExactStr xs_nullable(op.s.data(), op.s.size(), op.snull, 0), xs_always(op.s.data(), op.s.size(), false, 1);
   const char* const S = xs_nullable.p;    // NULL when the op asks for a NULL string
   const char* const S0 = xs_always.p;
